@@ -51,6 +51,10 @@ func runC04(c *wk.Ctx) {
 		c.Begin(0, "cross-namespace default loops")
 		c04CrossNamespace(c)
 	}
+	if c.Mine(1) {
+		c.Begin(1, "deep valid values of recursive struct-mapped schemas")
+		c04StructTrees(c)
+	}
 	n := c.N(2500, 600000)
 	c.Cases(n, func(idx int64, r *wk.Rand) {
 		cfg := gen.Full()
@@ -258,3 +262,74 @@ func c04CrossNamespace(c *wk.Ctx) {
 }
 
 func init() { register("C04", runC04) }
+
+// c04Node / c04Dir: struct-mapped objects that contain themselves through a slice and through a map (a Go struct
+// can do that without a pointer).
+type c04Node struct {
+	V        int64     `json:"v"`
+	Children []c04Node `json:"children"`
+}
+
+type c04Dir struct {
+	Name    string            `json:"name"`
+	Entries map[string]c04Dir `json:"entries"`
+}
+
+// c04StructTrees: valid, deeply nested values of recursive struct-mapped schemas (one child per level, so the value
+// is small): every operation is linear in the depth, and the CPU-time rule of the driver decides if one is not.
+func c04StructTrees(c *wk.Ctx) {
+	prop := func(t schema.Type, required bool) *schema.PropertySchema {
+		return schema.NewPropertySchema(t, nil, required, nil, nil, nil, nil, nil)
+	}
+	node := schema.NewScopeSchema(schema.NewStructMappedObjectSchema[c04Node]("Node", map[string]*schema.PropertySchema{
+		"v":        prop(schema.NewIntSchema(nil, nil, nil), true),
+		"children": prop(schema.NewListSchema(schema.NewRefSchema("Node", nil), nil, nil), false),
+	}))
+	dir := schema.NewScopeSchema(schema.NewStructMappedObjectSchema[c04Dir]("Dir", map[string]*schema.PropertySchema{
+		"name":    prop(schema.NewStringSchema(nil, nil, nil), true),
+		"entries": prop(schema.NewMapSchema(schema.NewStringSchema(nil, nil, nil), schema.NewRefSchema("Dir", nil), nil, nil), false),
+	}))
+	for _, depth := range []int{4, 16, 64, 400} {
+		var nodeRaw any = map[string]any{"v": int64(depth)}
+		var dirRaw any = map[string]any{"name": "leaf"}
+		for i := 0; i < depth; i++ {
+			nodeRaw = map[string]any{"v": int64(i), "children": []any{nodeRaw}}
+			dirRaw = map[string]any{"name": fmt.Sprint(i), "entries": map[string]any{"sub": dirRaw}}
+		}
+		for _, tc := range []struct {
+			name string
+			t    schema.Type
+			raw  any
+		}{{"Node{v, children: list<ref Node>} on a struct", node, nodeRaw}, {"Dir{name, entries: map<string, ref Dir>} on a struct", dir, dirRaw}} {
+			var native any
+			var err error
+			for _, op := range []string{"Unserialize", "ValidateCompatibility(data)", "Validate", "Serialize"} {
+				c.Note(fmt.Sprintf("%s on a valid value nested %d deep: %s", op, depth, tc.name))
+				p, site, msg, _ := wk.Guard(func() {
+					switch op {
+					case "Unserialize":
+						native, err = tc.t.Unserialize(gen.CopyRaw(tc.raw))
+					case "ValidateCompatibility(data)":
+						err = tc.t.ValidateCompatibility(gen.CopyRaw(tc.raw))
+					case "Validate":
+						err = tc.t.Validate(native)
+					default:
+						_, err = tc.t.Serialize(native)
+					}
+				})
+				c.Count("calls")
+				c.Count("struct_tree_calls")
+				c.Eval(wk.Hash64("struct-tree", tc.name, op, fmt.Sprint(depth)), true)
+				w := map[string]any{"schema": tc.name, "depth": depth, "operation": op}
+				if p {
+					c.Violation("C04:panic:"+op+":"+site, fmt.Sprintf("%s panicked on a valid value nested %d deep (%s): %s", op, depth, tc.name, msg), w)
+					break
+				}
+				if err != nil {
+					c.Violation("C04:valid-deep-value-rejected:"+op, fmt.Sprintf("%s rejects a valid value nested %d deep (%s): %v", op, depth, tc.name, err), w)
+					break
+				}
+			}
+		}
+	}
+}
